@@ -41,6 +41,8 @@ fn after_family(ctx: &mut Ctx) {
 
 // ---------------------------------------------------------------- conditional trees
 
+/// operands written with sign strings (§441: signs and blanks before the digits)
+const SIGNED: [&str; 8] = ["--3", "-+-3", "+-3", "- 3", "- -3", "-0", "+2", "-- -1"];
 const TREE_PREAMBLE: &str = "\\let\\myif=\\iftrue\\let\\myfi=\\fi\\let\\myelse=\\else\\def\\hidfi{\\fi}";
 /// `~` is \let to \iftrue or to \fi, depending on what the tree uses it for (never both in one tree).
 fn tree_env(f: &cond::TreeFacts) -> (Env, &'static str) {
@@ -73,6 +75,8 @@ fn variant_json(v: &Variant) -> Value {
         Head::IfNum(a, r, b) => json!({"ifnum": [a, r.to_string(), b]}),
         Head::IfOdd(n) => json!({"ifodd": n}),
         Head::IfCase(n) => json!({"ifcase": n}),
+        Head::IfOddText(t) => json!({"ifodd_text": t}),
+        Head::IfCaseText(t) => json!({"ifcase_text": t}),
         Head::ActiveTrue => json!("active-true"),
         Head::TrueActiveFi => json!("true-active-fi"),
         Head::FalseActiveFi => json!("false-active-fi"),
@@ -95,6 +99,10 @@ fn variant_parse(v: &Value) -> Variant {
         Head::FalseActiveFi
     } else if let Some(a) = h["ifnum"].as_array() {
         Head::IfNum(a[0].as_i64().unwrap(), a[1].as_str().unwrap().chars().next().unwrap(), a[2].as_i64().unwrap())
+    } else if let Some(t) = h["ifodd_text"].as_str() {
+        Head::IfOddText(SIGNED.iter().copied().find(|x| *x == t).expect("known operand text"))
+    } else if let Some(t) = h["ifcase_text"].as_str() {
+        Head::IfCaseText(SIGNED.iter().copied().find(|x| *x == t).expect("known operand text"))
     } else if let Some(n) = h["ifodd"].as_i64() {
         Head::IfOdd(n)
     } else {
@@ -106,6 +114,7 @@ fn cond_json(c: &Cond) -> Value {
     json!({"v": variant_json(&c.v), "bodies": c.bodies.iter().map(|b| b.iter().map(|it| match it {
         Item::Letter => json!("L"),
         Item::Junk(t) => json!({"junk": tok_json(*t)}),
+        Item::Lit(t) => json!({"lit": tok_json(*t)}),
         Item::Cond(c) => cond_json(c),
     }).collect::<Vec<_>>()).collect::<Vec<_>>()})
 }
@@ -125,6 +134,8 @@ fn cond_parse(v: &Value) -> Cond {
                             Item::Letter
                         } else if let Some(j) = it["junk"].as_str() {
                             Item::Junk(tok_parse(j))
+                        } else if let Some(j) = it["lit"].as_str() {
+                            Item::Lit(tok_parse(j))
                         } else {
                             Item::Cond(cond_parse(it))
                         }
@@ -144,23 +155,47 @@ fn text_of(tokens: &[Tok]) -> String {
 /// `distinct`: count the case among the distinct non-trivial ones (false for re-runs and for trees that
 /// another family also enumerates).
 fn check_tree(idx: u64, c: &Cond, full_state: bool, distinct: bool, acc: &mut Acc) {
+    check_tree_how(idx, c, full_state, distinct, false, false, acc)
+}
+/// `via_macro`: the tree is the replacement text of a macro `\\t` and is read back from its expansion instead of
+/// from the file (only for trees without unbalanced braces); `at_end`: nothing follows the tree in the input.
+fn check_tree_how(idx: u64, c: &Cond, full_state: bool, distinct: bool, via_macro: bool, at_end: bool, acc: &mut Acc) {
     acc.eval();
     let r = c.render();
     let mut tokens = vec![LP];
     tokens.extend_from_slice(&r.tokens);
-    tokens.push(RP);
-    tokens.push(END);
     let mut want = vec![LP];
     want.extend_from_slice(&r.expected);
-    want.push(RP);
-    want.push(END);
+    if at_end {
+        // the end of the line supplies a space token unless the scanner is skipping blanks (after a control word)
+        if !via_macro && r.tokens.last() == Some(&cond::ACTIVE) {
+            tokens.push(cond::SPACE);
+            want.push(cond::SPACE);
+        }
+        acc.count("tree_is_the_last_thing_in_the_input");
+    } else {
+        tokens.push(RP);
+        tokens.push(END);
+        want.push(RP);
+        want.push(END);
+    }
+    if via_macro {
+        acc.count("tree_read_back_from_a_macro_expansion");
+    }
     // second oracle
     let (env, active_preamble) = tree_env(&r.facts);
     let (x, ev) = cond::expand_all(&env, &tokens, true);
     if x.as_ref() != Ok(&want) {
         model_disagreement(format!("{}: by construction {} / expander {:?}", mm::show(&tokens), mm::show(&want), x));
     }
-    let src = format!("{TREE_PREAMBLE}{active_preamble}{}", text_of(&tokens));
+    let src = if via_macro {
+        let tail: &[Tok] = if at_end { &[] } else { &[RP, END] };
+        format!("{TREE_PREAMBLE}{active_preamble}\\def\\t{{{}}}(\\t{}", text_of(&r.tokens), render(tail, true).unwrap())
+    } else {
+        // the space token that the end of the line supplies is not written
+        let written = if at_end && tokens.last() == Some(&cond::SPACE) && r.tokens.last() == Some(&cond::ACTIVE) { &tokens[..tokens.len() - 1] } else { &tokens[..] };
+        format!("{TREE_PREAMBLE}{active_preamble}{}", text_of(written))
+    };
     let out = if full_state { run_full(&src, &[], false) } else { run_m(&src, &[], false) };
     let f = &r.facts;
     if f.some_branch_skipped && f.some_branch_delivered {
@@ -200,7 +235,7 @@ fn check_tree(idx: u64, c: &Cond, full_state: bool, distinct: bool, acc: &mut Ac
     acc.count(if f.negative_odd_live { "diag_failing_tree_evaluates_ifodd_on_a_negative_odd_number" } else { "diag_failing_tree_of_any_other_kind" });
     let class = if f.negative_odd_live { "tree DIFFERS (a live \\ifodd on a negative odd number)" } else { "tree DIFFERS (other)" };
     acc.class(&format!("{class} impl={}", out.class()));
-    acc.fail(idx, json!({"kind": "tree", "tree": cond_json(c), "full_state": full_state, "program": src}), mm::show(&want), out.show(), class);
+    acc.fail(idx, json!({"kind": "tree", "tree": cond_json(c), "full_state": full_state, "via_macro": via_macro, "at_end": at_end, "program": src}), mm::show(&want), out.show(), class);
 }
 
 fn wide_variants() -> Vec<Variant> {
@@ -266,7 +301,7 @@ fn all_conditions() -> Vec<Variant> {
         v.push(Variant::new(Head::ActiveTrue, 0, e));
         v.push(Variant::new(Head::TrueActiveFi, 0, e));
         v.push(Variant::new(Head::FalseActiveFi, 0, e));
-        let ops = [-3i64, -1, 0, 1, 2, 2147483647];
+        let ops = [-2147483647i64, -3, -1, 0, 1, 2, 2147483646, 2147483647];
         for a in ops {
             for r in ['<', '=', '>'] {
                 for b in ops {
@@ -274,10 +309,14 @@ fn all_conditions() -> Vec<Variant> {
                 }
             }
         }
-        for n in [3i64, -3, 2, -2, 1, -1, 0, 2147483647, -2147483647] {
+        for n in [3i64, -3, 2, -2, 1, -1, 0, 2147483647, -2147483647, 2147483646, -2147483646] {
             v.push(Variant::new(Head::IfOdd(n), 0, e));
         }
-        for n in [-1i64, 0, 1, 2, 3, 7] {
+        for t in SIGNED {
+            v.push(Variant::new(Head::IfOddText(t), 0, e));
+            v.push(Variant::new(Head::IfCaseText(t), 2, e));
+        }
+        for n in [-2147483647i64, -1, 0, 1, 2, 3, 4, 7, 2147483647] {
             for m in 0..=3 {
                 v.push(Variant::new(Head::IfCase(n), m, e));
             }
@@ -311,6 +350,8 @@ fn probe_bodies(v: &Variant, pattern: u64) -> Vec<Vec<Item>> {
         .map(|_| match pattern {
             0 => vec![Item::Letter],
             1 => vec![Item::Letter, Item::Cond(Cond { v: Variant::new(Head::IfFalse, 0, true), bodies: vec![vec![Item::Letter], vec![Item::Letter]] })],
+            // 2-, 3- and 4-byte characters, live and skipped
+            3 => vec![Item::Lit(Tok::Ch('\u{e9}', 12)), Item::Letter, Item::Lit(Tok::Ch('\u{20ac}', 12)), Item::Lit(Tok::Ch('\u{1d4b3}', 12))],
             _ => vec![],
         })
         .collect()
@@ -368,6 +409,17 @@ fn x_envs() -> Vec<XEnv> {
         v.push(cond::ACTIVE);
         v
     };
+    let with_aliases = |mut e: Env| {
+        e.insert("nx", Meaning::NoExpand);
+        e.insert("q", Meaning::Unexpandable);
+        e
+    };
+    let with_alias_symbols = |b: &Vec<Tok>| {
+        let mut v = b.clone();
+        v.push(cs("nx"));
+        v.push(cs("q"));
+        v
+    };
     let mut with_xb = base.clone();
     with_xb.push(cs("xb"));
     vec![
@@ -380,6 +432,8 @@ fn x_envs() -> Vec<XEnv> {
         XEnv { name: "active-iffalse", preamble: "\\let~=\\iffalse\\def\\a{\\b}\\def\\b{y}\\def\\c{}", env: with_active(mk(vec![cs("b")], vec![], false), Meaning::IfFalse), alphabet: with_tilde(&base) },
         // for the structured programs: both names of the primitive and the active macro
         XEnv { name: "two-names-and-active-macro", preamble: "\\let\\xb=\\xa\\def~{\\b}\\def\\a{\\b}\\def\\b{y}\\def\\c{}", env: with_active(mk(vec![cs("b")], vec![], true), Meaning::Macro(vec![cs("b")])), alphabet: with_tilde(&base) },
+        // \\noexpand under a second name, and an unexpandable command that is not a primitive: \\q \\let to the letter x
+        XEnv { name: "aliases", preamble: "\\let\\nx=\\noexpand\\let\\q=x\\def\\a{\\b}\\def\\b{y}\\def\\c{}", env: with_aliases(mk(vec![cs("b")], vec![], false)), alphabet: with_alias_symbols(&base) },
     ]
 }
 
@@ -417,8 +471,10 @@ fn check_string(idx: u64, xe: &XEnv, env_no: usize, toks: &[Tok], full_state: bo
     let mut tokens = toks.to_vec();
     tokens.push(END);
     let (tex, ev) = cond::expand_all(&xe.env, &tokens, true);
+    // \q is \let to the letter x: what the implementation's handlers see of it is that letter
+    let delivered = |t: Vec<Tok>| -> Vec<Tok> { t.into_iter().map(|x| if x == Tok::Cs("q") { Tok::Ch('x', 11) } else { x }).collect() };
     let tex = match tex {
-        Ok(t) => Verdict::Tokens(t),
+        Ok(t) => Verdict::Tokens(delivered(t)),
         Err(Stop::Budget) => {
             acc.cutoffs += 1;
             return;
@@ -446,6 +502,12 @@ fn check_string(idx: u64, xe: &XEnv, env_no: usize, toks: &[Tok], full_state: bo
     }
     if ev.marker_dropped_by_backup {
         acc.count("marker_dropped_by_back_input");
+    }
+    if toks.contains(&Tok::Cs("nx")) && ev.expansions > 0 {
+        acc.count("noexpand_under_a_second_name");
+    }
+    if toks.windows(3).any(|w| is_xa(&w[0]) && w[2] == Tok::Cs("q")) {
+        acc.count("expandafter_target_is_a_let_character_alias");
     }
     if ev.xa_expands_active_char {
         acc.count("expandafter_expands_an_active_character");
@@ -510,7 +572,7 @@ fn check_string(idx: u64, xe: &XEnv, env_no: usize, toks: &[Tok], full_state: bo
     // expansion step was requested by \expandafter)
     if ev.xa_on_noexpand_expandable {
         let adj = match cond::expand_all(&xe.env, &tokens, false).0 {
-            Ok(t) => Some(Verdict::Tokens(t)),
+            Ok(t) => Some(Verdict::Tokens(delivered(t))),
             Err(Stop::Budget) | Err(Stop::OutsideDomain(_)) | Err(Stop::Undefined(_)) => None,
             Err(s) => Some(Verdict::Fails(format!("{s:?}"))),
         };
@@ -614,7 +676,13 @@ fn main() {
         let mut acc = Acc::default();
         let full = case["full_state"].as_bool().unwrap_or(false);
         match case["kind"].as_str() {
-            Some("tree") => check_tree(0, &cond_parse(&case["tree"]), full, true, &mut acc),
+            Some("tree") => check_tree_how(0, &cond_parse(&case["tree"]), full, true, case["via_macro"].as_bool().unwrap_or(false), case["at_end"].as_bool().unwrap_or(false), &mut acc),
+            Some("truncation") => {
+                acc.eval();
+                if let Outcome::Panic(p) = run_m(case["program"].as_str().unwrap_or(""), &[], case["optimized"].as_bool().unwrap_or(false)) {
+                    acc.fail(0, case.clone(), "no panic", p.describe(), "panic on a truncated program");
+                }
+            }
             Some("string") => {
                 let k = case["env"].as_u64().unwrap_or(0) as usize;
                 check_string(0, &xenvs[k], k, &toks_parse(&case["tokens"]), full, true, &mut acc)
@@ -628,7 +696,7 @@ fn main() {
         ctx.finish_replay(acc);
     }
     let thorough = !ctx.quick();
-    let string_maxlens: [u32; 6] = ctx.pick([6, 5, 5, 5, 5, 5], [7, 7, 7, 7, 7, 6]);
+    let string_maxlens: [u32; 8] = ctx.pick([6, 5, 5, 5, 5, 5, 0, 5], [7, 7, 7, 7, 7, 6, 0, 6]); // index = environment; 0 = no string family (environment 6 serves expandafter-structured)
     let wide_nodes: usize = ctx.pick(2, 3);
 
     if std::env::var("C07_COUNTS").is_ok() {
@@ -646,24 +714,80 @@ fn main() {
     // T1: every kind / operand in every context
     {
         let conds = all_conditions();
-        let n = conds.len() as u64 * N_CONTEXTS * 3;
+        // 4 body patterns x (read from the file | read back from a macro expansion) x (followed by `)\\END` | last thing in the input)
+        let radices = [conds.len() as u64, N_CONTEXTS, 4, 2, 2];
+        let n = vcore::product(&radices);
         let cref = &conds;
         ctx.family(
             "conditions-in-contexts",
-            &format!("{} conditions (\\iftrue, \\iffalse, \\let-alias, the active character ~ \\let to \\iftrue, ~ \\let to \\fi closing an \\iftrue / \\iffalse, \\ifnum a R b for a,b in {{-3,-1,0,1,2,2^31-1}} x R in {{<,=,>}}, \\ifodd n for n in {{+-3,+-2,+-1,0,+-(2^31-1)}}, \\ifcase n for n in {{-1,0,1,2,3,7}} with 0-3 \\or; each with and without \\else) x 10 contexts (top level; live/skipped then- and else-branch; skipped / live / else branch of an \\ifcase; two levels inside skipped text) x 3 body patterns (letter; letter + nested \\iffalse..\\else..\\fi; empty)", conds.len()),
+            &format!("{} conditions (\\iftrue, \\iffalse, \\let-alias, the active character ~ \\let to \\iftrue, ~ \\let to \\fi closing an \\iftrue / \\iffalse, \\ifnum a R b for a,b in {{-(2^31-1),-3,-1,0,1,2,2^31-2,2^31-1}} x R in {{<,=,>}}, \\ifodd n for n in {{+-3,+-2,+-1,0,+-(2^31-2),+-(2^31-1)}}, \\ifodd and \\ifcase with 8 sign-string operands (--3, -+-3, +-3, - 3, - -3, -0, +2, -- -1), \\ifcase n for n in {{-(2^31-1),-1,0,1,2,3,4,7,2^31-1}} with 0-3 \\or; each with and without \\else) x 10 contexts (top level; live/skipped then- and else-branch; skipped / live / else branch of an \\ifcase; two levels inside skipped text) x 4 body patterns (letter; letter + nested \\iffalse..\\else..\\fi; empty; letter + U+00E9 U+20AC U+1D4B3) x read from the file / read back from a macro expansion x followed by )\\END / last thing in the input", conds.len()),
             n,
             |i, acc| {
-                let d = vcore::digits(i, &[cref.len() as u64, N_CONTEXTS, 3]);
+                let d = vcore::digits(i, &radices);
                 let v = &cref[d[0] as usize];
                 let p = Cond { v: v.clone(), bodies: probe_bodies(v, d[2]) };
                 let c = in_context(d[1], p);
                 // \\iftrue / \\iffalse / alias / \\ifcase probes also occur in the tree families: counted there
-                check_tree(i, &c, false, matches!(v.head, Head::IfNum(..) | Head::IfOdd(_) | Head::ActiveTrue | Head::TrueActiveFi | Head::FalseActiveFi), acc);
-                if i % 4001 == 17 {
-                    acc.sample(i, || json!({"program": text_of(&c.render().tokens)}));
+                let distinct = d[3] + d[4] > 0 || d[2] == 3 || matches!(v.head, Head::IfNum(..) | Head::IfOdd(_) | Head::IfOddText(_) | Head::IfCaseText(_) | Head::ActiveTrue | Head::TrueActiveFi | Head::FalseActiveFi);
+                if matches!(v.head, Head::IfOddText(_) | Head::IfCaseText(_)) {
+                    acc.count("operand_with_a_sign_string");
+                }
+                if d[2] == 3 {
+                    acc.count("non_ascii_tokens_in_branches");
+                }
+                check_tree_how(i, &c, false, distinct, d[3] == 1, d[4] == 1, acc);
+                if i % 40_009 == 17 {
+                    acc.sample(i, || json!({"program": text_of(&c.render().tokens), "via_macro": d[3] == 1, "at_end": d[4] == 1}));
                 }
             },
         );
+        after_family(&mut ctx);
+    }
+
+    // T1b: the programs of T1 (body pattern 1, read from the file) cut off after every character: no panic
+    {
+        let conds = all_conditions();
+        let mut progs: Vec<String> = vec![];
+        for v in &conds {
+            for k in 0..N_CONTEXTS {
+                let c = in_context(k, Cond { v: v.clone(), bodies: probe_bodies(v, 1) });
+                let r = c.render();
+                let (_, ap) = tree_env(&r.facts);
+                let mut t = vec![LP];
+                t.extend_from_slice(&r.tokens);
+                t.push(RP);
+                t.push(END);
+                progs.push(format!("{ap}{}", text_of(&t)));
+            }
+        }
+        // plus \\expandafter / \\noexpand programs
+        for p in ["\\def\\a{\\b}\\def\\b{y}\\xa\\xa\\xa\\a\\xa\\noexpand\\b\\a x\\END", "\\let\\xb=\\xa\\def\\a{\\b}\\def\\b{y}\\xb\\iffalse\\noexpand\\a\\else\\xa x\\fi\\a\\END"] {
+            progs.push(p.to_string());
+        }
+        let mut offs = vec![];
+        let mut n = 0u64;
+        for p in &progs {
+            offs.push(n);
+            n += p.len() as u64;
+        }
+        let (pref, oref) = (&progs, &offs);
+        ctx.family("truncations", &format!("{} programs (every condition in every context with nested bodies, two \\expandafter programs) cut off after every character, run with both \\expandafter implementations: no panic", progs.len()), 2 * n, |i, acc| {
+            let (j, opt) = (i / 2, i % 2 == 1);
+            let k = oref.partition_point(|o| *o <= j) - 1;
+            let cut = (j - oref[k]) as usize;
+            if !pref[k].is_char_boundary(cut) {
+                acc.skipped += 1;
+                return;
+            }
+            let src = format!("{TREE_PREAMBLE}{}", &pref[k][..cut]);
+            acc.eval();
+            acc.count("truncated_programs");
+            match run_m(&src, &[], opt) {
+                Outcome::Panic(p) => acc.fail(i, json!({"kind": "truncation", "program": src, "optimized": opt}), "no panic", p.describe(), "panic on a truncated program"),
+                Outcome::Cutoff => acc.cutoffs += 1,
+                o => acc.class(&format!("truncated: {}", o.class())),
+            }
+        });
         after_family(&mut ctx);
     }
 
@@ -791,8 +915,11 @@ fn main() {
     }
 
     // X1..X4: \expandafter / \noexpand strings, three-way
-    for (k, xe) in xenvs.iter().enumerate().take(string_maxlens.len()) {
+    for (k, xe) in xenvs.iter().enumerate() {
         let maxlen = string_maxlens[k];
+        if maxlen == 0 {
+            continue;
+        }
         let a = xe.alphabet.len() as u64;
         let n = vcore::strings_upto(a, maxlen) - 1;
         ctx.family(
@@ -923,6 +1050,13 @@ fn main() {
     ctx.require("expandafter_expands_an_active_character", "the token an \\expandafter expands is an active character (a command reference that is not a control sequence)");
     ctx.require("active_character_conditional_alias_live", "a conditional primitive reached through the active character ~ in live text");
     ctx.require("active_character_conditional_alias_in_skipped_text", "... in skipped text");
+    ctx.require("noexpand_under_a_second_name", "\\noexpand reached through \\let\\nx=\\noexpand");
+    ctx.require("expandafter_target_is_a_let_character_alias", "the token after the next one is an unexpandable command that is not a primitive (\\let\\q=x)");
+    ctx.require("operand_with_a_sign_string", "an \\ifodd / \\ifcase operand written with several signs and blanks");
+    ctx.require("non_ascii_tokens_in_branches", "2/3/4-byte characters in live and skipped branches");
+    ctx.require("tree_read_back_from_a_macro_expansion", "a conditional whose tokens (skipped text included) come from a macro expansion instead of the file");
+    ctx.require("tree_is_the_last_thing_in_the_input", "the closing \\fi is the last token of the input");
+    ctx.require("truncated_programs", "programs cut off at every position");
     ctx.require("structured_expandafter_programs", "long chains and reverse-order pyramids of \\expandafter");
     ctx.require("full_state_runs", "cases re-run on the full vtex::HState");
     ctx.finish("trees: every tree of the enumerated families on a fresh VM, compared token by token with the letters of the selected branches (non-trivial = at least one branch skipped and at least one delivered); strings: every token string of the family run three times (non-trivial = contains \\expandafter, something was expanded and TeX delivers tokens). distinct_nontrivial counts a case once: re-runs on the full state are not counted, trees of trees-deep / conditions-in-contexts / chains and programs of expandafter-structured that another family also enumerates are counted only there (the counters trees_with_a_skipped_and_a_delivered_branch and strings_where_expandafter_acts_and_tex_delivers give the totals with repetitions)");
